@@ -83,7 +83,8 @@ func c17ReadLoops() int {
 	pprof.Lookup("goroutine").WriteTo(&b, 2)
 	n := 0
 	for _, g := range strings.Split(b.String(), "\n\n") {
-		if strings.Contains(g, "(*Handler).readLoop(") {
+		// read loops of the exit and the port-forward exit handler only (udp.Handler has one per association too)
+		if strings.Contains(g, "/exit.(*Handler).readLoop(") || strings.Contains(g, "/forward.(*Handler).readLoop(") {
 			n++
 		}
 	}
